@@ -48,10 +48,13 @@ static void body(Tape &t, Ctx &c) {
 	for (auto &s : segs) total += s.len;
 	igzc::Sched in = igzc::decode_sched(t, total, total / 600 + 1), out = igzc::decode_sched(t, total, total / 600 + 1);
 	if (t.range(0, 3) == 0) { out.mode = 1; out.param = (uint32_t) t.pick<uint32_t>({1, 2, 3, 5, 7}); if (total / out.param > 2500) out.param = (uint32_t) (total / 2500 + 1); } // < 8-byte buffers force the staging path
+	// an "impatient" caller moves on to the next input segment as soon as its input was taken, even if the output buffer filled up in the middle of the
+	// flush (marker partly staged): nothing is claimed for that flush point, but the next completed flush must then cover everything fed so far
+	bool impatient = t.range(0, 2) == 0;
 	std::vector<uint8_t> all;
 	dg::expand(segs, all);
 	c.fpmix(dg::fingerprint(segs)); for (int k : kinds) c.fpmix(k);
-	c.fpmix(o.level * 100 + o.gzip_flag * 10); c.fpmix(o.hist_bits); c.fpmix(mix64((uint64_t) (uintptr_t) lv)); c.fpmix(in.mode * 7 + in.param); c.fpmix(out.mode * 7 + out.param);
+	c.fpmix(o.level * 100 + o.gzip_flag * 10); c.fpmix(o.hist_bits); c.fpmix(mix64((uint64_t) (uintptr_t) lv)); c.fpmix(in.mode * 7 + in.param); c.fpmix(out.mode * 7 + out.param); c.fpmix(impatient);
 	kern::use_level(lv);
 	igz::Deflater d(o);
 	size_t hdr, trl;
@@ -103,6 +106,7 @@ static void body(Tape &t, Ctx &c) {
 			// flush finished exactly when the output chunk filled up: the property's precondition (space left) is not met, nothing is claimed;
 			// move on instead of requesting yet another flush cycle
 			if (seg_done && d.pending.empty() && d.s->internal_state.state == ZSTATE_NEW_HDR && ci.produced == cap) { c.label("flush-completed-with-full-buffer(not-judged)"); break; }
+			if (impatient && !last_step && seg_done && d.pending.empty() && ci.produced == cap && cap > 0) { c.label("next-segment-fed-while-flush-output-pending"); break; }
 		}
 	}
 	refinf::Result ri;
@@ -140,6 +144,9 @@ static void body_stateless_concat(Tape &t, Ctx &c) {
 		if (i > 0 && t.coin()) { s.kind = 6; s.back = (size_t) t.range(1, 4000); }
 		segs.push_back(s);
 	}
+	// an "impatient" caller moves on to the next input segment as soon as its input was taken, even if the output buffer filled up in the middle of the
+	// flush (marker partly staged): nothing is claimed for that flush point, but the next completed flush must then cover everything fed so far
+	bool impatient = t.range(0, 2) == 0;
 	std::vector<uint8_t> all;
 	dg::expand(segs, all);
 	kern::use_level(lv);
